@@ -47,7 +47,7 @@ def model_term(c, impl):
     if s is None or e2e.unsupported(c, s):
         return None
     ids = e2e.Ids(c)
-    return '(let P := %s in let S := %s in (precond_viol P ++ replay_viol P S, run_writer_enc P S))' % (
+    return '(let P := %s in let S := %s in (precond_viol P ++ replay_viol P S ++ xreplay_viols P S, run_writer_enc P S))' % (
         e2e.g_problem(c, ids), e2e.g_solution(c, s, ids))
 
 
@@ -105,7 +105,7 @@ def compare(c, impl, model):
 
 CLASS = {'RNoReplay': 'tour-not-replayable', 'RArrival': 'arrival-not-reproducible', 'RDeparture': 'departure-not-reproducible',
          'RStopDeparture': 'stop-departure-differs-from-last-activity', 'RActLocation': 'activity-location-differs-from-stop',
-         'RLoad': 'load-not-reproducible', 'RDistance': 'distance-not-reproducible', 'RTag': 'tag-mismatch',
+         'RLoad': 'load-not-reproducible', 'RLoadDim': 'load-not-reproducible-in-extra-dimension', 'RDistance': 'distance-not-reproducible', 'RTag': 'tag-mismatch',
          'RStatDistance': 'statistic-distance', 'RStatDuration': 'statistic-duration', 'RStatDriving': 'statistic-driving',
          'RStatServing': 'statistic-serving', 'RStatWaiting': 'statistic-waiting', 'RStatBreak': 'statistic-break',
          'RStatCost': 'statistic-cost', 'RTotal': 'total-is-not-sum-of-tours'}
